@@ -36,7 +36,7 @@ fn main() {
     }
     let prop = args[1].clone();
     let mut out_dir = String::from("/verif/.cache/run/tmp");
-    let mut cfg = Cfg { tier: "quick".into(), seed: 1, only_case: None, cases: None, scale: 1 };
+    let mut cfg = Cfg { tier: "quick".into(), seed: 1, only_case: None, cases: None, scale: 1, skip: vec![] };
     let mut from = 0u64;
     let mut to = 0u64;
     let mut i = 2;
@@ -68,6 +68,10 @@ fn main() {
             }
             "--cases" => {
                 cfg.cases = Some(args[i + 1].parse().unwrap());
+                i += 2
+            }
+            "--skip" => {
+                cfg.skip.push(args[i + 1].parse().unwrap());
                 i += 2
             }
             "--scale" => {
